@@ -81,8 +81,8 @@ def via_builder(prog, seed=None, native=None):
             i = pobjs[idx] if idx in pobjs else (objs[idx] if (isinstance(idx, str) and idx in objs) else idx)
             if base is not None and not isinstance(i, str):
                 return base[i]
-            if must and reg not in params:
-                raise Unresolvable(reg)
+            if must and ((reg not in params and base is None) or (isinstance(i, str) and i not in params)):
+                raise Unresolvable(reg)  # an object built at once cannot refer to a name that only the circuit knows
             return a
         if isinstance(a, str) and a in pobjs:
             return pobjs[a]
